@@ -122,7 +122,10 @@ func replayFinding(prop string, f *Finding) (string, ReplayResult) {
 
 func runReplay(doc *ReplayDoc, path string) ReplayResult {
 	if strings.HasSuffix(doc.Harness, "_NR") || strings.Contains(doc.Harness, "_NR_") {
-		return ReplayResult{Reproduced: true, Note: "harness declared not natively replayable (symbolic pre-state / model sinks); solver witness stands"}
+		// a one-step witness starts from an arbitrary symbolic pre-state, which no native run can be
+		// given: it is reported as a candidate, never as a violation (only what reproduces against
+		// the real build is reported); the bounded-history harnesses of the same property replay
+		return ReplayResult{Reproduced: false, Note: "one-step witness from an arbitrary symbolic pre-state: not replayable natively, reported as a candidate only"}
 	}
 	pkgdir := harnessPkgDir(doc.Harness)
 	if pkgdir == "" {
